@@ -33,6 +33,16 @@ Section C19.
   (* with strictly_monotonic the misfit history never increases *)
   Theorem c19_monotone : mono = true -> forall x x', consecutive (ret_xs s) x x' -> ltb x x' = false.
   Proof. intros Hm x x'; exact (gd_monotone misfit grad eps reg mono m0 iterations x x' Hm). Qed.
+  (* (beyond the property text, part of the model's contract) the histories have one length, between 1 and
+     iterations + 1, and the trajectory is shorter than iterations + 1 only when the step after the returned
+     model was refused by one of the two guards: no admissible step is ever dropped *)
+  Theorem c19_lengths : length (ret_ms s) = length (ret_xs s) /\ 1 <= length (ret_xs s) <= iterations + 1.
+  Proof. exact (gd_lengths misfit grad eps reg mono m0 iterations). Qed.
+
+  Theorem c19_maximal : length (ret_xs s) < iterations + 1 ->
+      let x' := misfit (vsub (gm s) (vscale eps (precondition reg (grad (gm s))))) in
+      isnan x' || isinf x' = true \/ ltb (gx s) x' && mono = true.
+  Proof. exact (gd_maximal misfit grad eps reg mono m0 iterations). Qed.
 End C19.
 
 Print Assumptions c19_last.
@@ -40,6 +50,8 @@ Print Assumptions c19_misfit_of_model.
 Print Assumptions c19_step.
 Print Assumptions c19_never_nonfinite.
 Print Assumptions c19_monotone.
+Print Assumptions c19_lengths.
+Print Assumptions c19_maximal.
 
 (* non-vacuity: a binary64 run that takes two steps and then hits the NaN guard *)
 Example c19_nonvacuous :
